@@ -24,7 +24,7 @@ OkLoad(e, name) ==
     CASE ent.kind \in {"absent", "dir", "unreadable"} -> FailsWithUTC(e)
       [] ent.kind = "file" ->
            LET D == Decode(ent.bytes) IN
-           IF ~StructOk(D) THEN (~D.ok => FailsWithUTC(e))       \* truncated / not TZif: must fail; odd structure: open
+           IF ~StructOk(D) THEN ((~D.ok \/ D.cut) => FailsWithUTC(e))   \* truncated (also inside the footer) / not TZif: must fail; odd structure: open
            ELSE IF D.leapcnt # 0 THEN FailsWithUTC(e)             \* leap-second ("right") data is rejected
            ELSE LET Z == MkZone(D) IN
                 IF Z.rule.kind = "bad" THEN FailsWithUTC(e)
